@@ -235,6 +235,10 @@ def build(run):
         lvl1 += [C.ExprList(f), C.ExprList(f, g), C.ExprList(g, f, c1), ufl.diff(f * g, ufl.variable(f)) if False else f * g, f + g, g * c1, f * f, (f + g) * (f + c1)]
         tens = [u, w, A, B, ufl.as_vector([f, g]), ufl.as_vector([g, f]), ufl.as_vector([f, g, c1]), ufl.grad(f), ufl.grad(g), ufl.grad(u), A.T, ufl.as_tensor(A[i, j], (j, i)),
                 ufl.as_tensor(A[j, i], (i, j)), x, ufl.FacetNormal(m), 2 * u, ufl.outer(u, w), ufl.outer(w, u), C.Identity(2), ufl.as_vector(u[i] * A[i, j], j)]
+        # operands that contain structurally EQUAL but not identical subtrees (built twice), differing elsewhere
+        twice = lambda: (g + c1) * f      # noqa: E731
+        lvl1 += [C.Division(a_, twice()) for a_ in (f, g, c2, x[0])] + [C.Division(twice(), a_) for a_ in (f, g)] + [ufl.conditional(ufl.lt(twice(), c2), a_, twice()) for a_ in (f, g)]
+        tens += [ufl.as_vector([twice(), a_]) for a_ in (f, g, c2)] + [ufl.as_vector([a_, twice()]) for a_ in (f, g)]
         tens += [ufl.as_tensor(A[i, 0], (i,)), ufl.as_tensor(A[j, 1], (j,)), ufl.as_tensor(A[0, i], (i,))]
         return [e for e in scal + lvl1 + open_idx if isinstance(e, C.Expr)], tens
 
